@@ -7,5 +7,6 @@ INVARIANTS
   P_C01_Scope
   P_C01_Order
   P_C01_Fresh
+  P_C01_Bounds
   Emit
 CHECK_DEADLOCK FALSE
